@@ -248,3 +248,11 @@ def run(ctx):
               "overrides.push(given id)", "overrides_with no longer stores the id it is given unconditionally")
 
     relation_setters_accumulate(fx, res, "R7.6")
+
+    # ---- R7.7 args_override_self / the global settings machinery reach every subcommand (shared with C05 R5.8)
+    from rules.c05 import global_setters
+    global_setters(fx, res, "R7.7", ["args_override_self"])
+    pg = fx.body("clap_builder::builder::command::Command::_propagate_subcommand")
+    wrote = dict((f, expr(pg, s_["rv"]["op"])) for f in ("settings", "g_settings") for i, s_ in writes_field(pg, f) if s_["rv"]["k"] == "use")
+    res.check(wrote.get("settings") == "bitor(sc.settings,self.g_settings)" and wrote.get("g_settings") == "bitor(sc.g_settings,self.g_settings)", "R7.7", "global-settings-handed-down", pg.where(),
+              "global settings handed down at every depth", "_propagate_subcommand writes %s" % wrote)
